@@ -832,6 +832,18 @@ fn execute_c17(plan: &ApiPlan) -> RunOut {
                     guard("Registry::gather+encode", false, catch(|| TextEncoder::new().encode_to_string(&reg.gather()).is_ok()));
                     guard("Registry::unregister", false, catch(|| reg.unregister(Box::new(c.clone())).is_ok()));
                     guard("Registry::unregister", true, catch(|| reg.unregister(Box::new(c.clone())).is_ok()));
+                    // collectors with several descriptors: a refused call must not change what the next
+                    // call is answered ({a} registered; {a,b} is not; {a,c} clashes with a)
+                    use crate::scen::registry::{make_collector, DescSpec};
+                    let d = |n: &str| DescSpec { name: n.to_string(), help: "help".into(), consts: vec![], vars: vec![] };
+                    let mk = |ds: &[DescSpec], i: usize| Box::new(make_collector(ds, i, false).expect("scripted collector"));
+                    guard("Registry::register({a})", false, catch(|| reg.register(mk(&[d("c17_a")], 0)).is_ok()));
+                    guard("Registry::unregister({a,b}) which was never registered", true, catch(|| reg.unregister(mk(&[d("c17_a"), d("c17_b")], 1)).is_ok()));
+                    guard("Registry::register({a,c}) while {a} is registered", true, catch(|| reg.register(mk(&[d("c17_a"), d("c17_c")], 2)).is_ok()));
+                    guard("Registry::register({c,a}) while {a} is registered", true, catch(|| reg.register(mk(&[d("c17_c"), d("c17_a")], 2)).is_ok()));
+                    guard("Registry::unregister({a})", false, catch(|| reg.unregister(mk(&[d("c17_a")], 0)).is_ok()));
+                    guard("Registry::register({a,c}) after {a} was unregistered", false, catch(|| reg.register(mk(&[d("c17_a"), d("c17_c")], 2)).is_ok()));
+                    guard("Registry::register({c}) while {a,c} is registered", true, catch(|| reg.register(mk(&[d("c17_c")], 3)).is_ok()));
                 }
             }
         }
